@@ -42,6 +42,17 @@ func PanicWhileSettingCheckpoint(addr string) {
 	}
 }
 
+// WaitActionHook (engine E-F): stands in front of the registration loop's wait for the controller's action.  It
+// returns (action, tick, handled); handled=false means "not mine": the original select runs.
+var WaitActionHook func(replicaAddress string) (string, bool, bool)
+
+func WaitAction(replicaAddress string) (string, bool, bool) {
+	if h := WaitActionHook; h != nil {
+		return h(replicaAddress)
+	}
+	return "", false, false
+}
+
 var UpdateLUNMapTimeoutTriggered bool
 
 func AddUpdateLUNMapTimeout() {
